@@ -93,22 +93,34 @@ Definition pp_init (c : cfg) (t p : Z) (l : lres) : pp * list effect :=
   | LFail _ => (pp_init_state c, [])
   end.
 
+(* the forwarding loop of flushRetryBuffers over one level's buffer.  fixes/c05_flush_stamp.patch: a parked
+   first-pass message gets its sequence number here (sq: what getAndIncrementSequenceNumber returns next) *)
+Fixpoint flush_sends (c : cfg) (t p : Z) (sq ep : Z) (buf : list msg) : list effect * Z :=
+  match buf with
+  | [] => ([], sq)
+  | m :: r =>
+      if c_idem c && fresh_pass m && is_data m && negb (m_hasseq m)
+      then let '(e, sq') := flush_sends c t p (sq + 1) ep r in (EStamp t p :: ESend DCur (set_stamp m sq ep) :: e, sq')
+      else let '(e, sq') := flush_sends c t p sq ep r in (ESend DCur m :: e, sq')
+  end.
+
 (* flushRetryBuffers, entered with highWatermark = h *)
-Fixpoint flush (c : cfg) (t p : Z) (h : nat) (hasbp : bool) (leader : Z) (lv : list level) (ls : list lres)
+Fixpoint flush (c : cfg) (t p : Z) (h : nat) (hasbp : bool) (leader : Z) (lv : list level) (stamp : Z * Z) (ls : list lres)
   : (nat * bool * Z * list level) * list effect :=
   match h with
   | O => ((O, hasbp, leader, lv), [ECrash CR_LEVEL])
   | S h' =>
       let buf := l_buf (get_level h' lv) in
-      let '(hasbp1, leader1, effs1, ls1) :=
-        if hasbp then (true, leader, map (ESend DCur) buf, ls)
+      let '(hasbp1, leader1, effs1, ls1, sq1) :=
+        if hasbp then let '(e, sq') := flush_sends c t p (fst stamp) (snd stamp) buf in (true, leader, e, ls, sq')
         else match next_lres ls with
-             | (LOk b, r) => (true, b, leader_effects c t p b ++ map (ESend DCur) buf, r)
-             | (LFail e, r) => (false, leader, return_errors buf e, r)
+             | (LOk b, r) => let '(e, sq') := flush_sends c t p (fst stamp) (snd stamp) buf in
+                             (true, b, leader_effects c t p b ++ e, r, sq')
+             | (LFail e, r) => (false, leader, return_errors buf e, r, fst stamp)
              end in
       let lv1 := set_buf h' [] lv in
       if l_chaser (get_level h' lv) || (h' =? 0)%nat then ((h', hasbp1, leader1, lv1), effs1)
-      else let '(res, effs2) := flush c t p h' hasbp1 leader1 lv1 ls1 in (res, effs1 ++ effs2)
+      else let '(res, effs2) := flush c t p h' hasbp1 leader1 lv1 (sq1, snd stamp) ls1 in (res, effs1 ++ effs2)
   end.
 
 (* the tail of the loop body: obtain a broker worker if there is none, stamp, forward *)
@@ -147,7 +159,7 @@ Definition pp_step (c : cfg) (t p : Z) (st : pp) (m : msg) (ab : bool) (stamp : 
       else (mkPp (p_hwm st1) (push_buf r m (p_levels st1)) (p_has_bp st1) (p_leader st1), e1)
     else if is_fin m then
       let lv := set_chaser (p_hwm st1) false (p_levels st1) in
-      let '((h', hasbp, leader, lv'), effs) := flush c t p (p_hwm st1) (p_has_bp st1) (p_leader st1) lv ls in
+      let '((h', hasbp, leader, lv'), effs) := flush c t p (p_hwm st1) (p_has_bp st1) (p_leader st1) lv stamp ls in
       (mkPp h' lv' hasbp leader, e1 ++ effs ++ [EDone m])
     else pp_forward c t p st1 m stamp ls e1
   else pp_forward c t p st1 m stamp ls e1.
